@@ -191,6 +191,9 @@ def run(chk):
         {'pat': rl.s2l('r/') + [TOKEN] + rl.s2l('-') + [TOKEN], 'filters': ['re([a-z]+)', 'float(None)'], 'names': ['rule', 'name']},
         {'pat': rl.s2l('k/') + [TOKEN] + rl.s2l('/') + [TOKEN] + rl.s2l('/') + [TOKEN], 'filters': ['None', 'None', 'None'], 'names': ['anchor', 'params', 'route']},
         {'pat': rl.s2l('u/') + [TOKEN] + rl.s2l('/') + [TOKEN], 'filters': ['None', 'int(None)'], 'names': ['anon_user', '_']},
+        # more than ten anonymous wildcards: positional values keep their positions
+        {'pat': sum([[TOKEN, 47] for _ in range(12)], [])[:-1], 'filters': ['re([a-z]+)'] * 12, 'names': [''] * 12},
+        {'pat': rl.s2l('m/') + sum([[TOKEN, 45] for _ in range(11)], []) + rl.s2l('end/') + [TOKEN], 'filters': ['int(None)'] * 11 + ['None'], 'names': [''] * 11 + ['last']},
     ]
     recs = []
     rules = fixed + rand_universe(rng, 200 if thorough else 40)
@@ -230,7 +233,8 @@ def edge_values(chk):
     beyond the range of a float.  Judged in the harness (same clauses: the URL is built, resolves to the same route with the
     same values); the filters are outside the transcribed set."""
     from ombott.router.radirouter import RadiRouter
-    cases = [('/a/{x:re([a-z]*)}/b', '/a//b'), ('/a/{x:re([a-z]*)}/b', '/a/q/b'), ('/e/<x:re(\\d*)>x', '/e/x'), ('/e/<x:re(\\d*)>x', '/e/12x'),
+    cases = [('/img/{name:re((thumb|full)_[0-9]+)}.png', '/img/thumb_12.png'), ('/v/<ver:re(v([0-9]+)(\\.[0-9]+)?)>/doc', '/v/v2.10/doc'),
+             ('/k/<a:re((a|b)+)>-<b:re(x(y)?)>', '/k/abba-x'), ('/a/{x:re([a-z]*)}/b', '/a//b'), ('/a/{x:re([a-z]*)}/b', '/a/q/b'), ('/e/<x:re(\\d*)>x', '/e/x'), ('/e/<x:re(\\d*)>x', '/e/12x'),
              ('/o/<v:re((?:on)?)>/<w>', '/o//k'), ('/f/{x:float}', '/f/' + '9' * 400), ('/f/{x:float}', '/f/-' + '9' * 400 + '.5'),
              ('/f/{x:float}/t', '/f/1' + '0' * 308 + '/t'), ('/f/{x:float}', '/f/' + '1' + '0' * 307)]
     for rule, path in cases:
